@@ -256,7 +256,7 @@ fn structured_case(st: &mut Stats, rng: &mut Rng, class: &str, ar: DM<Rat>, ac: 
                 judge_f64(st, class, &af, &bf, &FloatCert { kappa: Some(k) });
                 if rng.chance(0.5) { judge_scaling_f64(st, rng, class, &af, &bf); }
                 let rs: Vec<i32> = (0..n).map(|_| rng.int(-8, 8) as i32).collect();
-                let cs: Vec<i32> = (0..n).map(|_| rng.int(-40, 40) as i32).collect();
+                let cs: Vec<i32> = (0..n).map(|_| rng.int(-90, 90) as i32).collect();
                 let ars = DM::<Rat>::from_fn(n, n, |i, j| ar.a[i][j] * pow2_rat(rs[i]));
                 if let (Some(afr), Some(kr)) = (exact_to_f64(&ars), kappa_exact(&ars, mag_rat)) {
                     if kr <= KMAX {
@@ -274,7 +274,7 @@ fn structured_case(st: &mut Stats, rng: &mut Rng, class: &str, ar: DM<Rat>, ac: 
                 let bf: Vec<Cmplx> = bc.iter().map(|v| Cmplx::new(v.re.to_f64(), v.im.to_f64())).collect();
                 judge_cmplx(st, class, &af, &bf, &FloatCert { kappa: Some(k) });
                 let rs: Vec<i32> = (0..n).map(|_| rng.int(-8, 8) as i32).collect();
-                let cs: Vec<i32> = (0..n).map(|_| rng.int(-40, 40) as i32).collect();
+                let cs: Vec<i32> = (0..n).map(|_| rng.int(-90, 90) as i32).collect();
                 let acs = DM::<CRat>::from_fn(n, n, |i, j| ac.a[i][j] * CRat::new(pow2_rat(rs[i]), Rat::ZERO));
                 if let (Some(afr), Some(kr)) = (exact_to_c(&acs), kappa_exact(&acs, mag_crat)) {
                     if kr <= KMAX {
@@ -322,13 +322,15 @@ pub fn judge_scaling_f64(st: &mut Stats, rng: &mut Rng, class: &str, a: &Vec<Vec
 /// lower part c with |c| >= 1, ones in the last column: correct partial pivoting exchanges rows and shows no growth)
 /// and random dense systems; certificate from the harness complete-pivoting inverse.
 fn large_case(st: &mut Stats, rng: &mut Rng) {
-    let n = rng.usize(9, 32);
-    let trap = rng.bool();
+    // mostly 9..32; now and then a few hundred (blocked/tiled elimination code only shows beyond its tile size)
+    let n = if rng.chance(0.02) { rng.usize(250, 330) } else if rng.chance(0.2) { rng.usize(33, 80) } else { rng.usize(9, 32) };
+    let trap = rng.bool() && n <= 40;
     let a: Vec<Vec<f64>> = if trap {
         let c = *rng.pick(&[-2.0, 2.0, -1.5, -1.0, 1.0, -3.0]);
         (0..n).map(|i| (0..n).map(|j| if i == j { 1.0 } else if j < i { c } else if j == n - 1 { 1.0 } else { 0.0 }).collect()).collect()
     } else {
-        (0..n).map(|_| (0..n).map(|_| rng.int(-9, 9) as f64).collect()).collect()
+        // random dense with a dominant diagonal for the larger orders (keeps the conditioning certificate cheap to meet)
+        (0..n).map(|i| (0..n).map(|j| if i == j && n > 32 { (rng.int(5, 9) * n as i64) as f64 * if rng.bool() { 1.0 } else { -1.0 } } else { rng.int(-9, 9) as f64 }).collect()).collect()
     };
     let xs: Vec<f64> = (0..n).map(|_| rng.int(-3, 3) as f64).collect();
     let b: Vec<f64> = (0..n).map(|i| (0..n).map(|j| a[i][j] * xs[j]).sum()).collect();
@@ -408,7 +410,7 @@ pub fn run(ctx: &Ctx) -> Report {
         stats.merge(st);
     }
     let mut rep = Report::new(stats,
-        "cases: every permutation P of n<=6 (quick) / n<=8 (thorough) rows as A=P*L*U (3 variants: plain, extra zeros, 2^-40 entries), random P for larger n, random dense/sparse-pattern/triangular/permutation-like/zero-diagonal integer matrices, all 3^(n*n) sign/zero patterns for n<=3, exact 2^k row/column scalings, global scalings 2^(+-300) of A and b (solution must scale bit-exactly), orders 9..32 (pivot-tie growth traps and random dense, f64), general graded floats; each through Rat, CRat (exact complex), f64 and Complex<f64>. A case is non-trivial when n>=2, the system is certified nonsingular and both solvers were called; distinct = distinct (type,class,A,b) hashes");
+        "cases: every permutation P of n<=6 (quick) / n<=8 (thorough) rows as A=P*L*U (3 variants: plain, extra zeros, 2^-40 entries), random P for larger n, random dense/sparse-pattern/triangular/permutation-like/zero-diagonal integer matrices, all 3^(n*n) sign/zero patterns for n<=3, exact 2^k row/column scalings, global scalings 2^(+-300) of A and b (solution must scale bit-exactly), orders 9..32 and occasionally up to 330 (pivot-tie growth traps and random dense, f64), general graded floats; each through Rat, CRat (exact complex), f64 and Complex<f64>. A case is non-trivial when n>=2, the system is certified nonsingular and both solvers were called; distinct = distinct (type,class,A,b) hashes");
     rep.assumptions = vec![
         "float cases are judged only with a conditioning certificate kappa_inf <= 1e8: exact inverse over Rat/CRat of the identical dyadic data (also for the 2^+-8 row-scaled variant; 2^+-40 column scalings do not change pivoting or rounding), or harness complete-pivoting Gauss-Jordan (pivot ratio >= 2^-30) for general floats".into(),
         "f64 backward-error threshold 1024*n*u fixed in harness (measured worst on unchanged tree ~3e-16)".into(),
